@@ -48,3 +48,58 @@ contract(F + "build_A",
                                "forall(r, 0, off(na), forall(k, p_id + 1, NP, A[r][k] == 0))"]),
          },
          serves={"C01", "C02", "C08", "C11"})
+
+# ----------------------------------------------------------------------------------------- iter_tuples (generator)
+# ghost: mixed-radix weights w and rank;  the k-th yielded tuple is in the box and has rank k;  exactly P = w(n) yields.
+RANK_GHOST = dict(
+    ghost_funs=[GhostFun("w", "Int -> Int"), GhostFun("rank", "AInt Int -> Int")],
+    axioms=["w(0) == 1",
+            "forall(a, implies(0 <= a and a < nt, w(a + 1) == w(a) * sizes[a]), pat=[w(a + 1)])",
+            "forall([(t, AInt)], rank(t, 0) == 0)",
+            "forall([(t, AInt), a], implies(0 <= a and a < nt, rank(t, a + 1) == rank(t, a) + t[a] * w(a)),"
+            " pat=[rank(t, a + 1)])"],
+)
+RANK_LEMMAS = [
+    Lemma("w_pos", "w(a) >= 1", binders=[("a", "Int")], hyps=["0 <= a", "a <= nt"], method=("induction", "a", "0")),
+    Lemma("rank_bounds", "0 <= rank(t, a) and rank(t, a) <= w(a) - 1",
+          binders=[("t", "AInt"), ("a", "Int")],
+          hyps=["0 <= a", "a <= nt", "forall(j, 0, a, 0 <= t[j] and t[j] < sizes[j])"],
+          method=("induction", "a", "0")),
+    Lemma("rank_zeros", "rank(t, a) == 0", binders=[("t", "AInt"), ("a", "Int")],
+          hyps=["0 <= a", "a <= nt", "forall(j, 0, a, t[j] == 0)"], method=("induction", "a", "0")),
+    Lemma("rank_max", "rank(t, a) == w(a) - 1", binders=[("t", "AInt"), ("a", "Int")],
+          hyps=["0 <= a", "a <= nt", "forall(j, 0, a, t[j] == sizes[j] - 1)"], method=("induction", "a", "0")),
+    Lemma("rank_suffix", "rank(t, b) - rank(t, a) == rank(t2, b) - rank(t2, a)",
+          binders=[("t", "AInt"), ("t2", "AInt"), ("a", "Int"), ("b", "Int")],
+          hyps=["0 <= a", "a <= b", "b <= nt", "forall(j, a, b, t[j] == t2[j])"], method=("induction", "b", "a")),
+]
+
+contract(F + "iter_tuples",
+         params={"sizes": NdArray("i16", 1)},
+         returns=NdArray("i16", 1),           # type of each yielded value
+         lets={"nt": "len(sizes)"},
+         macros=[Macro("in_box", ["t"], "forall(j, 0, nt, 0 <= t[j] and t[j] < sizes[j])")],
+         requires=["nt >= 1", "forall(a, 0, nt, 1 <= sizes[a] and sizes[a] <= 32767)"],
+         lemmas=RANK_LEMMAS,
+         yields=[cl("len(yielded) == nt", name="len"),
+                 cl("in_box(yielded)", "C01 C07 C11", name="in_box"),
+                 cl("rank(yielded, nt) == nyield", "C07 C02", name="rank")],
+         count="w(nt)",
+         loops={
+             "L0": dict(match="while True",
+                        inv=["len(current) == nt", "in_box(current)", "rank(current, nt) == nyield", "nyield < w(nt)"],
+                        variant="w(nt) - nyield"),
+             "L0.0": dict(match="for i in range(nb_annotators)",
+                          inv=["len(current) == nt",
+                               "forall(j, 0, i, c0[j] == sizes[j] - 1 and current[j] == 0)",
+                               "forall(j, i, nt, current[j] == c0[j])"]),
+         },
+         hooks=[("after", "yield current", "c0 = current"),
+                # proof hints at the carry exit (they name the terms the rank lemmas are instantiated on)
+                ("before", "break", "assert rank(current, i) == 0 and rank(c0, i) == w(i) - 1"),
+                ("before", "break", "assert rank(current, i + 1) == current[i] * w(i) and "
+                                    "rank(c0, i + 1) == w(i) - 1 + c0[i] * w(i)"),
+                ("before", "break", "assert rank(current, nt) - rank(current, i + 1) == rank(c0, nt) - rank(c0, i + 1)")],
+         ghost_vars={"c0": ("AInt", None)},
+         serves={"C01", "C02", "C07", "C11"},
+         **RANK_GHOST)
